@@ -36,7 +36,31 @@ def arg_ty(b, op):
 
 # =========================================================================== C16
 
+def glob_trigger_vocabulary(prog, rep, R):
+    """C16.g — a path argument is expanded as a pattern only if it contains `*`; everything else that is not a directory is the file
+    it names.  (Every further character that turns a name into a pattern — `?`, `[` — makes files whose names contain it
+    unreachable: `unit[1].pas` is then matched against, not named, and silently skipped in all three modes.)"""
+    from util import const_args
+    fam = [b for b in prog.bodies.values() if b.npath.startswith(FF + "expand_paths")]
+    words = set()
+    n = 0
+    for b in fam:
+        for c in b.calls():
+            if (c.callee or "") in ("core::str::contains", "core::str::find", "core::str::starts_with", "core::str::ends_with", "core::str::matches"):
+                n += 1
+                vs = const_args(b, c)
+                words |= set(vs) if vs else {"<non-constant pattern>"}
+    for path, ca in prog.const_arrays.items():
+        if path.startswith(FF + "expand_paths") or path.startswith("pasfmt_orchestrator::file_formatter::GLOB"):
+            for e in ca.get("elems", []):
+                ch = e.get("char")
+                words.add(e["str"] if "str" in e else (ch if isinstance(ch, str) else chr(ch)) if ch is not None else "?")
+    rep.check(words == {"*"}, R, "pattern-trigger-is-asterisk-only", "expand_paths treats a path as a pattern when it contains one of %s (reviewed: `*` only): a file whose name contains another of "
+              "these characters can no longer be named" % sorted(words), instance={"trigger_characters": sorted(words), "tests": n})
+
+
 def check_c16(prog, rep, tier, cfg):
+    glob_trigger_vocabulary(prog, rep, "C16.g")
     c16a(prog, rep)
     c16b(prog, rep)
     c16c(prog, rep)
@@ -736,6 +760,22 @@ def c17c(prog, rep):
         if s["k"] == "assign" and s["rv"]["k"] == "aggregate" and s["rv"].get("variant") == "Unsupported":
             unsup = True
     rep.check(unsup, R, "fallthrough-unsupported", "encode() no longer ends in Err(Unsupported) for encodings it cannot produce")
+    # whatever encode() returns as Ok was produced by an encoder: the library's for this encoding, or one of the two UTF-16 ones —
+    # never the text's own (UTF-8) bytes or anything else (a shortcut for "ASCII only" text is wrong for UTF-16)
+    okp = set()
+    for bb, i, s2 in e.stmts():
+        if s2["k"] == "assign" and s2["rv"]["k"] == "aggregate" and s2["rv"].get("variant") == "Ok" and norm(s2["rv"].get("adt", "")).endswith("result::Result"):
+            for x in Origins(e).of_operand(s2["rv"]["ops"][0]):
+                if x[0] == "agg" and str(x[3]).endswith("Cow::Owned"):
+                    st = e.blocks[x[1]]["stmts"][x[2]]
+                    okp |= {y for y in Origins(e).of_operand(st["rv"]["ops"][0])}
+                else:
+                    okp.add(x)
+    names = sorted({x[2].split("::")[-1] if x[0] == "call" else x[0] for x in okp})
+    allowed = {"encoding_rs::Encoding::encode", FF + "encode_utf16be", FF + "encode_utf16le"}
+    rep.check(bool(okp) and all(x[0] == "call" and x[2] in allowed for x in okp), R, "ok-payload-is-an-encoder's-output",
+              "encode() can return Ok bytes that were not produced by the encoder of the file's encoding (origins: %s) — e.g. the text's UTF-8 bytes handed out unchanged" % names,
+              where="%s:%d" % (e.file, e.line), instance={"ok_payload_origins": names})
 
 
 def c17d(prog, rep):
